@@ -57,6 +57,7 @@ type FuncSpec struct {
 	Method    string
 	Transparent bool
 	GhostSets []*GhostSet
+	NilRecv   bool     // the receiver may be nil (no implicit non-nil assumption)
 	Spawns    []string // parameters holding functions that run later: their precondition is checked at the call
 }
 
@@ -178,7 +179,7 @@ var subKeywords = map[string]bool{
 	"requires": true, "ensures": true, "modifies": true, "loop": true, "protects": true,
 	"invariant": true, "assume": true, "inline": true, "maypanic": true, "nosafety": true,
 	"params": true, "results": true, "let": true, "letold": true, "forall": true, "note": true, "property": true,
-	"selfcomp": true, "held": true, "transparent": true, "ghostset": true, "spawns": true,
+	"selfcomp": true, "held": true, "transparent": true, "ghostset": true, "spawns": true, "nilrecv": true,
 }
 
 type rawDirective struct {
@@ -657,6 +658,8 @@ func parseFuncSub(fs *FuncSpec, d rawDirective, path string) error {
 		}
 	case "held":
 		fs.LockHeld = append(fs.LockHeld, strings.TrimSpace(d.text))
+	case "nilrecv":
+		fs.NilRecv = true
 	case "spawns":
 		for _, p := range strings.Split(d.text, ",") {
 			fs.Spawns = append(fs.Spawns, strings.TrimSpace(p))
